@@ -362,63 +362,155 @@ Qed.
 
 (* ------------------------------------------------------------------ case folding *)
 
+(* strings without '/' in front of other text *)
+Lemma tails_app_noslash w x : ~ In ch_slash w -> tails (w ++ x) = tails x.
+Proof.
+  induction w as [|c w IH]; intro H; [reflexivity|]. cbn [app tails].
+  destruct (N.eqb c ch_slash) eqn:E.
+  - exfalso. apply H. left. apply N.eqb_eq in E. auto.
+  - apply IH. intro Hin. apply H. right. exact Hin.
+Qed.
+
+Lemma sp_app_noslash w x : ~ In ch_slash w -> slash_prefixes (w ++ x) = map (app w) (slash_prefixes x).
+Proof.
+  induction w as [|c w IH]; intro H; cbn [app].
+  - rewrite map_id. reflexivity.
+  - cbn [slash_prefixes]. destruct (N.eqb c ch_slash) eqn:E.
+    + exfalso. apply H. left. apply N.eqb_eq in E. auto.
+    + rewrite IH, map_map; [reflexivity|]. intro Hin. apply H. right. exact Hin.
+Qed.
+
+Lemma split_nonempty s : split_slash s <> [].
+Proof.
+  induction s as [|c r IH]; cbn [split_slash]; [discriminate|].
+  destruct (N.eqb c ch_slash); [discriminate|]. destruct (split_slash r); discriminate.
+Qed.
+
+Lemma split_app_noslash w x : ~ In ch_slash w ->
+  split_slash (w ++ x) = match split_slash x with [] => [w] | y :: ys => (w ++ y) :: ys end.
+Proof.
+  induction w as [|c w IH]; intro H; cbn [app].
+  - destruct (split_slash x) eqn:Es; [exfalso; exact (split_nonempty x Es) | reflexivity].
+  - cbn [split_slash]. destruct (N.eqb c ch_slash) eqn:E.
+    + exfalso. apply H. left. apply N.eqb_eq in E. auto.
+    + rewrite IH by (intro Hin; apply H; right; exact Hin).
+      destruct (split_slash x); reflexivity.
+Qed.
+
+Lemma app_eq_app_slash (w x a b : str) :
+  ~ In ch_slash w -> w ++ x = a ++ ch_slash :: b -> exists a', a = w ++ a' /\ x = a' ++ ch_slash :: b.
+Proof.
+  revert a. induction w as [|y w IH]; intros a H E.
+  - exists a. auto.
+  - destruct a as [|z a]; cbn [app] in E.
+    + exfalso. apply H. left. congruence.
+    + assert (y = z) by congruence. subst z. assert (E' : w ++ x = a ++ ch_slash :: b) by congruence.
+      destruct (IH a) as (a' & Ea & Ex); [intro Hin; apply H; right; exact Hin | exact E'|].
+      exists a'. subst a. auto.
+Qed.
+
 Section WithFold.
-  Variable foldc : N -> N.
-  Hypothesis fold_slash : forall c, N.eqb (foldc c) ch_slash = N.eqb c ch_slash.
-  Hypothesis fold_hash : forall c, N.eqb (foldc c) ch_hash = N.eqb c ch_hash.
+  Variable foldc : N -> str.
+  (* the folding keeps '/' and '#' apart from everything else and erases nothing *)
+  Hypothesis fold_slash : foldc ch_slash = [ch_slash] /\ forall c, In ch_slash (foldc c) -> c = ch_slash.
+  Hypothesis fold_hash : foldc ch_hash = [ch_hash] /\ (forall c, foldc c = [ch_hash] -> c = ch_hash) /\
+                         forall c, foldc c <> [].
   Notation fold := (fold foldc).
   Notation lookup := lookup.
 
-  Lemma foldc_slash : foldc ch_slash = ch_slash.
-  Proof. apply N.eqb_eq. rewrite fold_slash. reflexivity. Qed.
+  Lemma foldc_slash : foldc ch_slash = [ch_slash].
+  Proof. exact (proj1 fold_slash). Qed.
 
-  Lemma foldc_hash : foldc ch_hash = ch_hash.
-  Proof. apply N.eqb_eq. rewrite fold_hash. reflexivity. Qed.
+  Lemma foldc_hash : foldc ch_hash = [ch_hash].
+  Proof. exact (proj1 fold_hash). Qed.
+
+  Lemma foldc_noslash c : N.eqb c ch_slash = false -> ~ In ch_slash (foldc c).
+  Proof.
+    intros E H. apply (proj2 fold_slash) in H. subst c. discriminate.
+  Qed.
+
+  Lemma fold_cons c s : fold (c :: s) = foldc c ++ fold s.
+  Proof. reflexivity. Qed.
 
   Lemma fold_app a b : fold (a ++ b) = fold a ++ fold b.
-  Proof. apply map_app. Qed.
-
-  Lemma fold_length s : length (fold s) = length s.
-  Proof. apply map_length. Qed.
+  Proof. apply flat_map_app. Qed.
 
   Lemma fold_s_hash : fold s_hash = s_hash.
-  Proof. cbn. rewrite foldc_hash. reflexivity. Qed.
+  Proof. unfold s_hash. rewrite fold_cons, foldc_hash. reflexivity. Qed.
 
   Lemma fold_s_slash_hash : fold s_slash_hash = s_slash_hash.
-  Proof. cbn. rewrite foldc_hash, foldc_slash. reflexivity. Qed.
+  Proof. unfold s_slash_hash. rewrite !fold_cons, foldc_hash, foldc_slash. reflexivity. Qed.
 
   Lemma fold_app_slash a b : fold (a ++ ch_slash :: b) = fold a ++ ch_slash :: fold b.
-  Proof. rewrite fold_app. cbn. rewrite foldc_slash. reflexivity. Qed.
+  Proof. rewrite fold_app, fold_cons, foldc_slash. reflexivity. Qed.
+
+  Lemma fold_eq_nil s : fold s = [] -> s = [].
+  Proof.
+    destruct s as [|c s]; [reflexivity|]. rewrite fold_cons. intro H.
+    apply app_eq_nil in H as [H _]. exfalso. exact (proj2 (proj2 fold_hash) c H).
+  Qed.
 
   Lemma fold_eq_hash s : fold s = s_hash -> s = s_hash.
   Proof.
-    destruct s as [|c [|d s]]; cbn; intro H; inversion H as [H1].
-    unfold s_hash. f_equal. apply N.eqb_eq. rewrite <- fold_hash, H1. reflexivity.
+    destruct s as [|c s]; [discriminate|]. rewrite fold_cons. intro H.
+    destruct (foldc c) as [|x w] eqn:E; [exfalso; exact (proj2 (proj2 fold_hash) c E)|].
+    cbn [app] in H. unfold s_hash in H. assert (x = ch_hash) by congruence. subst x.
+    assert (Hw : w ++ fold s = []) by congruence. apply app_eq_nil in Hw as [Hw Hs]. subst w.
+    apply fold_eq_nil in Hs. subst s. unfold s_hash. f_equal. exact (proj1 (proj2 fold_hash) c E).
   Qed.
 
-  Lemma fold_eq_app s a b : fold s = a ++ b -> exists s1 s2, s = s1 ++ s2 /\ fold s1 = a /\ fold s2 = b.
-  Proof. apply map_eq_app. Qed.
+  (* a '/' of the folded text comes from a '/' of the text *)
+  Lemma fold_eq_app_slash s : forall a b,
+    fold s = a ++ ch_slash :: b -> exists s1 s2, s = s1 ++ ch_slash :: s2 /\ fold s1 = a /\ fold s2 = b.
+  Proof.
+    induction s as [|c s IH]; intros a b H.
+    - destruct a; discriminate.
+    - rewrite fold_cons in H. destruct (N.eqb c ch_slash) eqn:Ec.
+      + apply N.eqb_eq in Ec. subst c. rewrite foldc_slash in H. cbn [app] in H.
+        destruct a as [|x a]; cbn [app] in H.
+        * exists [], s. repeat split. congruence.
+        * assert (x = ch_slash) by congruence. subst x.
+          assert (H' : fold s = a ++ ch_slash :: b) by congruence.
+          destruct (IH _ _ H') as (s1 & s2 & E & F1 & F2). exists (ch_slash :: s1), s2. subst s.
+          repeat split; auto. rewrite fold_cons, foldc_slash, F1. reflexivity.
+      + destruct (app_eq_app_slash _ _ _ _ (foldc_noslash c Ec) H) as (a' & Ea & Ex).
+        destruct (IH _ _ Ex) as (s1 & s2 & E & F1 & F2). exists (c :: s1), s2. subst s a.
+        repeat split; auto. rewrite fold_cons, F1. reflexivity.
+  Qed.
 
   Lemma fold_eq_cons_slash s rest :
     fold s = ch_slash :: rest -> exists r, s = ch_slash :: r /\ fold r = rest.
   Proof.
-    destruct s as [|c r]; cbn; intro H; [discriminate|].
-    assert (H1 : foldc c = ch_slash) by congruence.
-    assert (H2 : map foldc r = rest) by congruence.
-    exists r. split; [|exact H2]. f_equal. apply N.eqb_eq. rewrite <- fold_slash, H1. reflexivity.
+    intro H. destruct (fold_eq_app_slash s [] rest H) as (s1 & s2 & E & F1 & F2).
+    apply fold_eq_nil in F1. subst s1. exists s2. auto.
   Qed.
 
   Lemma tails_fold s : tails (fold s) = map fold (tails s).
   Proof.
-    induction s as [|c r IH]; [reflexivity|]. cbn [Schema.fold map tails]. rewrite fold_slash.
-    destruct (N.eqb c ch_slash); cbn [map]; unfold Schema.fold in IH; rewrite IH; reflexivity.
+    induction s as [|c r IH]; [reflexivity|]. rewrite fold_cons. cbn [tails].
+    destruct (N.eqb c ch_slash) eqn:E.
+    - apply N.eqb_eq in E. subst c. rewrite foldc_slash. cbn [app tails map]. rewrite slash_eqb_refl, IH. reflexivity.
+    - rewrite tails_app_noslash by (apply foldc_noslash; exact E). exact IH.
   Qed.
 
   Lemma sp_fold s : slash_prefixes (fold s) = map fold (slash_prefixes s).
   Proof.
-    induction s as [|c r IH]; [reflexivity|]. cbn [Schema.fold map slash_prefixes]. rewrite fold_slash.
-    unfold Schema.fold in IH. rewrite IH, map_app, !map_map.
-    destruct (N.eqb c ch_slash); reflexivity.
+    induction s as [|c r IH]; [reflexivity|]. rewrite fold_cons. cbn [slash_prefixes].
+    destruct (N.eqb c ch_slash) eqn:E.
+    - apply N.eqb_eq in E. subst c. rewrite foldc_slash. cbn [app slash_prefixes map]. rewrite slash_eqb_refl, IH.
+      cbn [app map]. rewrite !map_map. f_equal. apply map_ext. intro x.
+      rewrite fold_cons, foldc_slash. reflexivity.
+    - rewrite sp_app_noslash by (apply foldc_noslash; exact E). rewrite IH. cbn [app]. rewrite !map_map. reflexivity.
+  Qed.
+
+  Lemma split_fold s : split_slash (fold s) = map fold (split_slash s).
+  Proof.
+    induction s as [|c r IH]; [reflexivity|]. rewrite fold_cons. cbn [split_slash].
+    destruct (N.eqb c ch_slash) eqn:E.
+    - apply N.eqb_eq in E. subst c. rewrite foldc_slash. cbn [app split_slash map]. rewrite slash_eqb_refl, IH. reflexivity.
+    - rewrite split_app_noslash by (apply foldc_noslash; exact E). rewrite IH.
+      destruct (split_slash r) as [|w ws] eqn:Es; [exfalso; exact (split_nonempty r Es)|].
+      cbn [map]. rewrite fold_cons. reflexivity.
   Qed.
 
   Lemma last_comp_fold n : last_comp (fold n) = fold (last_comp n).
@@ -464,16 +556,88 @@ Section WithFold.
     - apply IH. exact H2.
   Qed.
 
+  (* every name's immediate parent is a name => every slash-prefix of a name is a name *)
+  Lemma parents_closed S :
+    (forall n, In n S -> parent_closed (map (@rev N) S) n = true) ->
+    forall k n q, length n <= k -> In n S -> In q (slash_prefixes n) -> In q S.
+  Proof.
+    intros HP k. induction k as [|k IH]; intros n q Hk Hn Hq.
+    - destruct n; [|cbn in Hk; lia]. cbn in Hq. destruct Hq as [Hq|[]]. subst q. exact Hn.
+    - destruct (sp_snoc n) as [l El]. rewrite El in Hq. apply in_app_or in Hq as [Hq|[Hq|[]]]; [|subst q; exact Hn].
+      destruct l as [|x l'] using rev_ind; [destruct Hq|]. clear IHl'.
+      pose proof (HP n Hn) as Hp. unfold parent_closed in Hp. rewrite El, rev_app_distr, rev_app_distr in Hp.
+      cbn [rev app] in Hp. apply mem_In in Hp. apply in_map_iff in Hp as (x' & Ex & Hx).
+      apply (f_equal (@rev N)) in Ex. rewrite !rev_involutive in Ex. subst x'.
+      assert (Esp : slash_prefixes n = l' ++ x :: [n]) by (rewrite El, <- app_assoc; reflexivity).
+      destruct (sp_split n l' x [n] Esp) as (rest & En & Emap); [discriminate|].
+      assert (Hl : l' ++ [x] = slash_prefixes x).
+      { pose proof (sp_app_slash x rest) as Hs. rewrite <- Emap, <- En in Hs. rewrite El in Hs.
+        apply app_inv_tail in Hs. exact Hs. }
+      rewrite Hl in Hq. apply (IH x q); auto.
+      rewrite En, app_length in Hk. cbn in Hk. lia.
+  Qed.
+
+  Lemma sp_trans q p n : In q (slash_prefixes p) -> In p (slash_prefixes n) -> In q (slash_prefixes n).
+  Proof.
+    rewrite !in_sp. intros [H1|[r1 H1]] [H2|[r2 H2]]; subst; auto.
+    - right. exists r2. reflexivity.
+    - right. exists r1. reflexivity.
+    - right. exists (r1 ++ ch_slash :: r2). rewrite <- app_assoc. reflexivity.
+  Qed.
+
+  Lemma sp_of_parent n p : parent_of n = Some p -> slash_prefixes n = slash_prefixes p ++ [n].
+  Proof.
+    unfold parent_of. destruct (sp_snoc n) as [l El]. rewrite El, rev_app_distr. cbn [rev app].
+    destruct l as [|x l'] using rev_ind; [discriminate|]. clear IHl'.
+    rewrite rev_app_distr. cbn [rev app]. intro H. inversion H; subst x.
+    assert (Esp : slash_prefixes n = l' ++ p :: [n]) by (rewrite El, <- app_assoc; reflexivity).
+    destruct (sp_split n l' p [n] Esp) as (rest & En & Emap); [discriminate|].
+    pose proof (sp_app_slash p rest) as Hs. rewrite <- Emap, <- En in Hs. rewrite <- El. exact Hs.
+  Qed.
+
+  Lemma sp_no_parent n : parent_of n = None -> slash_prefixes n = [n].
+  Proof.
+    unfold parent_of. destruct (sp_snoc n) as [l El]. rewrite El, rev_app_distr. cbn [rev app].
+    destruct l as [|x l'] using rev_ind; [reflexivity|]. rewrite rev_app_distr. discriminate.
+  Qed.
+
+  Lemma preorder_closed : forall l done prev,
+    preorder_ok prev l = true ->
+    (forall pv, prev = Some pv -> forall q, In q (slash_prefixes pv) -> In q done) ->
+    forall n q, In n l -> In q (slash_prefixes n) -> In q (done ++ l).
+  Proof.
+    induction l as [|n0 r IH]; intros done prev H Hp n q Hn Hq; [destruct Hn|].
+    cbn [preorder_ok] in H.
+    assert (Hn0 : forall q0, In q0 (slash_prefixes n0) -> In q0 (done ++ [n0]) /\ preorder_ok (Some n0) r = true).
+    { destruct (parent_of n0) as [p|] eqn:P.
+      - destruct prev as [pv|]; [|discriminate].
+        destruct (mem p (slash_prefixes pv)) eqn:M; [|discriminate]. apply mem_In in M.
+        intros q0 Hq0. split; [|exact H]. rewrite (sp_of_parent n0 p P) in Hq0.
+        apply in_app_or in Hq0 as [Hq0|[Hq0|[]]].
+        + apply in_or_app. left. apply (Hp pv eq_refl). exact (sp_trans q0 p pv Hq0 M).
+        + subst q0. apply in_or_app. right. left. reflexivity.
+      - intros q0 Hq0. split; [|exact H]. rewrite (sp_no_parent n0 P) in Hq0. destruct Hq0 as [Hq0|[]].
+        subst q0. apply in_or_app. right. left. reflexivity. }
+    destruct Hn as [Hn|Hn].
+    - subst n0. destruct (Hn0 q Hq) as [A _]. apply in_app_or in A as [A|[A|[]]].
+      + apply in_or_app. left. exact A.
+      + subst q. apply in_or_app. right. left. reflexivity.
+    - assert (Hr : preorder_ok (Some n0) r = true) by (exact (proj2 (Hn0 n0 (proj2 (in_sp n0 n0) (or_introl eq_refl))))).
+      replace (done ++ n0 :: r) with ((done ++ [n0]) ++ r) by (rewrite <- app_assoc; reflexivity).
+      apply (IH (done ++ [n0]) (Some n0) Hr) with (n := n); auto.
+      intros pv Epv q0 Hq0. inversion Epv; subst pv. exact (proj1 (Hn0 q0 Hq0)).
+  Qed.
+
   Lemma WFschema_WF S : WFschema foldc S = true -> WF S.
   Proof.
     unfold WFschema. intro H. apply andb_true_iff in H as [H H4]. apply andb_true_iff in H as [H H3].
     apply andb_true_iff in H as [H1 H2].
-    rewrite forallb_forall in H1, H2, H3.
+    rewrite forallb_forall in H1, H3.
     constructor.
     - exact H1.
-    - intros n q Hn Hq. specialize (H2 n Hn). unfold parent_closed in H2. rewrite forallb_forall in H2.
-      specialize (H2 q Hq). apply mem_In in H2. apply in_map_iff in H2 as (x & Ex & Hx).
-      apply (f_equal (@rev N)) in Ex. rewrite !rev_involutive in Ex. subst x. exact Hx.
+    - intros n q Hn Hq. unfold parents_ok in H2. destruct (preorder_ok None S) eqn:PO.
+      + apply (preorder_closed S [] None PO) with (n := n); [discriminate | exact Hn | exact Hq].
+      + rewrite forallb_forall in H2. apply (parents_closed S H2 (length n) n q); auto.
     - intros n Hn E. specialize (H3 n Hn). unfold hash_leaf in H3. apply andb_true_iff in H3 as [H3 _].
       subst n. rewrite str_eqb_refl in H3. discriminate.
     - intros n q Hn Hq Hne. specialize (H3 n Hn). unfold hash_leaf in H3. apply andb_true_iff in H3 as [_ H3].
